@@ -117,7 +117,15 @@ func Build(s *Setup, reqs []*Req, o BuildOpts) *World {
 		case HkLogger:
 			return flamego.Logger()
 		case HkRecovery:
-			return flamego.Recovery()
+			// Recovery itself is flamego's, unmodified; the wrapper only records when it is
+			// invoked and when it returns, so that oracles know its dynamic extent.
+			rec := flamego.Recovery().(flamego.LoggerInvoker)
+			return flamego.LoggerInvoker(func(c flamego.Context, l *log.Logger) {
+				q := w.reqOf(c.Request().Request)
+				q.ev(EvRecEnter, 0, 0, "")
+				defer q.ev(EvRecExit, 0, 0, "")
+				rec(c, l)
+			})
 		case HkRenderer:
 			return flamego.Renderer()
 		case HkStatic:
